@@ -34,14 +34,19 @@ def check_truncate(ctx):
             res, st = ev.run_function(fi, args={'x': x, 'y': y, 'x_left': xl, 'x_right': xr, 'x_left_as_ratio': Const(lr), 'x_right_as_ratio': Const(rr)})
             if ev.issues:
                 raise AnalysisError(f"C11.1: truncate not canonicalisable: {ev.issues[:3]}")
-            sp = ModSpec(ctx.prog, 'traffic_weaver.process', {'x': x, 'y': y, 'x_left': xl, 'x_right': xr}, inline=inline_except(*SCANS))
+            sp = ModSpec(ctx.prog, 'traffic_weaver.sorted_array_utils', {'x': x, 'y': y, 'x_left': xl, 'x_right': xr}, inline=inline_except(*SCANS))
             sp.exec(('x_left = x_left * (x[-1] - x[0]) + x[0]\n' if lr else '') + ('x_right = x_right * (x[-1] - x[0]) + x[0]\n' if rr else ''))
             sp.exec('l = find_closest_lower_equal_element_indices_to_values(x, [x_left], fill_not_valid=True)[0]\n'
                     'r = find_closest_higher_equal_element_indices_to_values(x, [x_right], fill_not_valid=True)[0] + 1\n')
             wx, wy = sp.val('x[l:r]'), sp.val('y[l:r]')
             tag = f"left ratio={lr}, right ratio={rr}"
+            from .common import count_semantics
+            res, wx, wy = count_semantics(res), count_semantics(wx), count_semantics(wy)       # scan calls and binary searches in one vocabulary (C10.4 is the premise)
             ok = isinstance(res, Tup) and len(res.items) == 2 and _same_slice(res.items[0], wx) and _same_slice(res.items[1], wy)
-            ctx.check(ok, 'C11.1', f"truncate ({tag}) returns (x[l:r], y[l:r]) with l = lower(x_left), r = higher(x_right) + 1",
+            from .common import foreign_heads
+            fh = [] if ok else foreign_heads(res, Tup([wx, wy]))
+            ctx.check(None if fh else ok, 'C11.1', f"truncate ({tag}) returns (x[l:r], y[l:r]) with l = lower(x_left), r = higher(x_right) + 1",
+                      (f"construction not recognised (uses {fh})\n" if fh else '') +
                       f"code: {show(res, 500)}\nspec: ({show(wx, 240)}, {show(wy, 240)})", fi.loc(), fi.qualname, f"truncate:{lr}:{rr}")
             ctx.sample({'rule': 'C11.1', 'case': tag, 'result': show(res, 200)})
 
